@@ -168,47 +168,54 @@ func checkNewTable(w *World, r *Result) {
 func checkIsComposite(w *World, r *Result) {
 	fi := w.MustFunc("analysis/sql.isComposite")
 	info := fi.Pkg.TypesInfo
-	var ts *ast.TypeSwitchStmt
+	// the function is a filter over the fields: every `return false` is a rejection, described by the conditions
+	// of its path (type-switch clause of the field's node, test on the bound value); the fall-through is `return true`
+	var rejections, accepts []string
+	var first ast.Node
 	ast.Inspect(fi.Decl.Body, func(x ast.Node) bool {
-		if s, ok := x.(*ast.TypeSwitchStmt); ok {
-			ts = s
+		if _, ok := x.(*ast.FuncLit); ok {
+			return false
+		}
+		ret, ok := x.(*ast.ReturnStmt)
+		if !ok || len(ret.Results) != 1 {
+			return true
+		}
+		if first == nil {
+			first = ret
+		}
+		conds := pathConds(fi.Decl, ret)
+		subst := map[types.Object]string{}
+		for _, c := range conds {
+			if c.clause != nil {
+				if b := info.Implicits[c.clause]; b != nil {
+					subst[b] = "$t"
+				}
+			}
+		}
+		set := strings.Join(condSetN(info, conds, subst), " && ")
+		tv := info.Types[ret.Results[0]]
+		switch {
+		case tv.Value != nil && !constant.BoolVal(tv.Value):
+			rejections = append(rejections, set)
+		case tv.Value != nil:
+			accepts = append(accepts, set)
+		default:
+			rejections = append(rejections, "returns "+es(ret.Results[0])+" under "+set)
 		}
 		return true
 	})
-	if ts == nil {
-		Undecided("isComposite: no type switch")
+	if first == nil {
+		Undecided("isComposite: no return")
 	}
-	got := map[string]string{}
-	defaultFalse := false
-	for _, cl := range ts.Body.List {
-		cc := cl.(*ast.CaseClause)
-		if cc.List == nil {
-			if len(cc.Body) == 1 {
-				if ret, ok := cc.Body[0].(*ast.ReturnStmt); ok && es(ret.Results[0]) == "false" {
-					defaultFalse = true
-				}
-			}
-			continue
-		}
-		binder := info.Implicits[cc]
-		for _, st := range cc.Body {
-			if is, ok := st.(*ast.IfStmt); ok {
-				got[es(cc.List[0])] = render(info, is.Cond, map[types.Object]string{binder: "$t"})
-			}
-		}
-	}
-	want := map[string]string{"*an.Enum": "$t.IsInteger()", "*an.Basic": "$t.Kind() == an.BKInt"}
-	good := defaultFalse && len(got) == 2
-	for k, v := range want {
-		if got[k] != v {
+	sort.Strings(rejections)
+	want := []string{"!($t.IsInteger()) && case *an.Enum", "!($t.Kind() == an.BKInt) && case *an.Basic", "default"}
+	good := len(accepts) == 1 && accepts[0] == "" && len(rejections) == len(want)
+	for i := range want {
+		if i >= len(rejections) || rejections[i] != want[i] {
 			good = false
 		}
 	}
-	var gl []string
-	for k, v := range got {
-		gl = append(gl, k+": "+v)
-	}
-	r.cond(good, "AGR-C08k", fi.Name, "composite = all fields are integer basics or integer enums", w.Pos(ts.Pos()), "case *Enum: IsInteger(); case *Basic: Kind() == BKInt; default: false", "isComposite accepts {"+strings.Join(gl, "; ")+"}: structs with non-integer fields (e.g. floats) become composite types instead of jsonb")
+	r.cond(good, "AGR-C08k", fi.Name, "composite = all fields are integer basics or integer enums", w.Pos(first.Pos()), "a field is rejected exactly when it is an Enum that is not IsInteger(), a Basic whose Kind() is not BKInt, or any other node; otherwise the struct is composite", "isComposite rejects {"+strings.Join(rejections, "; ")+"} and accepts under {"+strings.Join(accepts, "; ")+"}: structs with non-integer fields (e.g. floats) become composite types instead of jsonb, or integer-only structs are no longer composite")
 }
 
 func checkForeignKeys(w *World, r *Result) {
@@ -429,7 +436,7 @@ func sprintfArgs(fi *FuncInfo, marker string) [][]string {
 	var out [][]string
 	ast.Inspect(fi.Decl.Body, func(x ast.Node) bool {
 		call, ok := x.(*ast.CallExpr)
-		if !ok || fullName(calleeOf(info, call)) != "fmt.Sprintf" {
+		if !ok || !isSprintf(info, &call) {
 			return true
 		}
 		tv := info.Types[call.Args[0]]
@@ -438,8 +445,9 @@ func sprintfArgs(fi *FuncInfo, marker string) [][]string {
 		}
 		var args []string
 		args = append(args, constant.StringVal(tv.Value))
+		inl := inlineLocals(info, fi.Decl)
 		for _, a := range call.Args[1:] {
-			args = append(args, es(a))
+			args = append(args, render(info, a, inl))
 		}
 		out = append(out, args)
 		return true
@@ -523,7 +531,7 @@ func checkTableNaming(w *World, r *Result, rel string) int {
 		info := fi.Pkg.TypesInfo
 		ast.Inspect(fi.Decl.Body, func(x ast.Node) bool {
 			call, ok := x.(*ast.CallExpr)
-			if !ok || fullName(calleeOf(info, call)) != "fmt.Sprintf" {
+			if !ok || !isSprintf(info, &call) {
 				return true
 			}
 			tv := info.Types[call.Args[0]]
